@@ -41,6 +41,18 @@ CHECKS = {
         "ref": "DESIGN.md §4 C17",
         "note": "Trusted: fv/drivers/c17_objects.py:object_event and fv/gen.py:matrix_event compute the view-agreement booleans.",
     },
+    "C06": {
+        "technique": "TLA+ theorem SubsetReproduces (Design_MC) model checked with TLC over every row sequence of small training frames and replayed through evaluate_new_data; recorded evaluations of random designs on row multisets judged by TLC (rows relation on value ids)",
+        "text": "TLC enumerates every row sequence (length <= 2 quick, <= 3 thorough) of every small-scope training frame x 13 formula shapes, proves that the Abs evaluation on those rows equals the corresponding rows of the training matrices, and each case is replayed through CommonEffectsMatrix/GroupEffectsMatrix.evaluate_new_data. Random worlds x formulas with nested and interacting stateful transforms (center, scale, standardize, bs, poly, binary/B), C/T/S codings incl. levels=, ordered categoricals and group terms are evaluated on subsets, permutations, repetitions, single rows and single-level subsets of their training frame; TLC judges result[i] = training[sel[i]] on interned values and equal slices.",
+        "ref": "DESIGN.md §4 C06",
+        "note": "Trusted: TLC, fv/rows.py (value interning at 1e-9 relative tolerance). Inputs on which poly/bs are degenerate (fewer distinct values than the degree needs) are not generated.",
+    },
+    "C08": {
+        "technique": "TLA+ action property PermEquivariant (Design_MC) model checked with TLC over all permutations of small frames and replayed; recorded pairs of builds on transformed frames judged by TLC (rows relation)",
+        "text": "TLC proves on every small-scope frame and every non-identity permutation that the Abs design of the permuted frame is the row-permuted design with identical labels and slices, and every permuted frame is replayed into design_matrices. Random worlds x formulas (stateful transforms, codings, group terms, categorical responses) are built on the frame and on a copy with permuted rows, a non-unique / float / unsorted / reset index, shuffled columns and unused columns added (incl. NA) or dropped; TLC judges b[i] = a[perm[i]] on interned values with equal labels, levels and slices.",
+        "ref": "DESIGN.md §4 C08",
+        "note": "Trusted: TLC, fv/rows.py. Equality up to 1e-9 relative (summation order changes the last bits of fitted means).",
+    },
 }
 
 NOT_YET = "check not built yet (work in progress; see DESIGN.md §9 build order)"
